@@ -303,12 +303,79 @@ def _transparent_memo(p, fi, d):
     return True
 
 
+ONE_SHOT_MAKERS = {'map', 'filter', 'zip', 'iter', 'enumerate', 'reversed', 'chain', 'islice', 'takewhile', 'dropwhile',
+                   'accumulate', 'starmap', 'zip_longest', 'groupby', 'tee'}
+
+
+def one_shot_constants(p):
+    """{(module name, NAME) or (class qual, NAME): line} for module- and class-level names bound to a one-shot iterator
+    (map / filter / zip / iter / enumerate / reversed / itertools pipelines / a generator expression): the first consumer
+    uses it up, every later consumer sees it empty - state that outlives a call although nothing is ever assigned."""
+    out = {}
+
+    def is_one_shot(v):
+        if isinstance(v, ast.GeneratorExp):
+            return True
+        if isinstance(v, ast.Call):
+            f = v.func
+            nm = f.id if isinstance(f, ast.Name) else (f.attr if isinstance(f, ast.Attribute) else '')
+            return nm in ONE_SHOT_MAKERS
+        return False
+    def module_level(stmts):
+        # statements executed at import: the module body and what is nested in its try / if / with / for blocks
+        for st in stmts:
+            yield st
+            if isinstance(st, (ast.FunctionDef, ast.AsyncFunctionDef, ast.ClassDef)):
+                continue
+            for fld in ('body', 'orelse', 'finalbody'):
+                sub = getattr(st, fld, None)
+                if isinstance(sub, list) and sub and isinstance(sub[0], ast.stmt):
+                    yield from module_level(sub)
+            for h in getattr(st, 'handlers', []) or []:
+                yield from module_level(h.body)
+    for mi in p.modules.values():
+        for st in module_level(mi.tree.body):
+            if isinstance(st, (ast.Assign, ast.AnnAssign)) and st.value is not None and is_one_shot(st.value):
+                for t in (st.targets if isinstance(st, ast.Assign) else [st.target]):
+                    if isinstance(t, ast.Name):
+                        out[(mi.name, t.id)] = st.lineno
+            if isinstance(st, ast.ClassDef):
+                for s2 in st.body:
+                    if isinstance(s2, (ast.Assign, ast.AnnAssign)) and s2.value is not None and is_one_shot(s2.value):
+                        for t in (s2.targets if isinstance(s2, ast.Assign) else [s2.target]):
+                            if isinstance(t, ast.Name):
+                                out[('%s.%s' % (mi.name, st.name), t.id)] = s2.lineno
+    return out
+
+
 def check_purity(ctx, pid, consulted):
     p = ctx.p
     with ctx.obligation('%s.PURE' % pid, 'functions consulted by the analysis', None, 'btc_hd_wallet/') as ob:
         ob.evaluations += 1
         ob.saw('%d consulted functions' % len(consulted))
         mutated = mutated_module_containers(p)
+        one_shot = one_shot_constants(p)
+        if one_shot:
+            for q in consulted:
+                fi = p.functions.get(q)
+                if fi is None:
+                    continue
+                for n in ast.walk(fi.node):
+                    hit = None
+                    if isinstance(n, ast.Name) and isinstance(n.ctx, ast.Load) and (fi.module.name, n.id) in one_shot \
+                            and n.id not in fi.params:
+                        hit = ((fi.module.name, n.id), n)
+                    elif isinstance(n, ast.Attribute) and isinstance(n.ctx, ast.Load) and isinstance(n.value, ast.Name):
+                        for (owner, nm), ln in one_shot.items():
+                            if nm == n.attr and (owner.split('.')[-1] == n.value.id or
+                                                 (fi.cls is not None and n.value.id in fi.params[:1] and owner == fi.cls.qual)):
+                                hit = ((owner, nm), n)
+                    if hit is not None:
+                        ob.require(False, '%s consumes %s.%s, a one-shot iterator created once at import (line %d): the first call '
+                                   'uses it up and every later call sees it empty - the result depends on earlier calls'
+                                   % (q[len(PKG) + 1:], hit[0][0].split('.')[-1], hit[0][1], one_shot[hit[0]]),
+                                   '%s:%d' % (fi.module.relpath, hit[1].lineno))
+                        break
         for q in consulted:
             fi = p.functions.get(q)
             if fi is None:
